@@ -5,22 +5,28 @@
 (* WithManifestCheckReferrers / ReferrerList / ManifestGet on simreg or on  *)
 (* an OCI layout) through the monitor ReferrersProp.  One event per line;   *)
 (* every trace starts with a reset line carrying the header (mode and the   *)
-(* subject map sa1, sa2, sa3).  The monitor is deterministic, overlapping   *)
-(* calls are resolved inside it (any linearisation is accepted).            *)
+(* subject map sa1, sa2, sa3).  The monitor is deterministic and total,     *)
+(* overlapping calls are resolved inside it (any linearisation accepted).   *)
+(*   TSpec     stops at the first violated obligation (INVARIANT Ok): the   *)
+(*             standard path (vlib validate_batch).                         *)
+(*   TSpecAll  same steps, but a violated obligation is printed             *)
+(*             (<<"REJ", trace, line, obligation>>) and cleared, so one     *)
+(*             pass reports every rejection of a large batch.               *)
 (***************************************************************************)
 EXTENDS ReferrersProp, Json, IOUtils, Integers
 Log == ndJsonDeserialize(IOEnv.VERIF_TRACE)
-VARIABLE l
+VARIABLES l, tid
 Ev == Log[l]
-\* JSON arrays arrive as tuples; an empty array may arrive as an empty record/tuple
+\* JSON arrays arrive as tuples; an empty array as an empty function
 AsSeq(x) == IF DOMAIN x = {} THEN <<>> ELSE x
 AsSet(x) == IF DOMAIN x = {} THEN {} ELSE Range(x)
-SubjOf(e) == [a \in Arts |-> CASE a = "a1" -> e.sa1 [] a = "a2" -> e.sa2 [] OTHER -> e.sa3]
-TInit == PInit /\ l = 1
+HdrSubj(e) == [a \in Arts |-> CASE a = "a1" -> e.sa1 [] a = "a2" -> e.sa2 [] OTHER -> e.sa3]
+TInit == PInit /\ l = 1 /\ tid = ""
 TNext ==
   /\ l <= Len(Log)
   /\ l' = l + 1
-  /\ \/ Ev.ev = "reset" /\ PReset(Ev.mode, SubjOf(Ev))
+  /\ tid' = IF Ev.ev = "reset" THEN Ev.trace ELSE tid
+  /\ \/ Ev.ev = "reset" /\ PReset(Ev.mode, HdrSubj(Ev))
      \/ Ev.ev = "call" /\ PCall(Ev.id, Ev.k, Ev.a)
      \/ Ev.ev = "ret" /\ PRet(Ev.id, Ev.res)
      \/ Ev.ev = "stored" /\ PStored(AsSet(Ev.set))
@@ -29,7 +35,15 @@ TNext ==
      \/ Ev.ev = "fetch" /\ PFetch(IF Ev.got = Ev.asked THEN "same"
                                      ELSE IF Ev.got \in {"notfound", "error"} THEN Ev.got ELSE "other")
      \/ Ev.ev = "note" /\ PNote
-TSpec == TInit /\ [][TNext]_<<pvars, l>>
+TSpec == TInit /\ [][TNext]_<<pvars, l, tid>>
+\* report-and-continue: the event at line l-1 violated obligation `bad`
+TNextAll ==
+  IF bad # ""
+  THEN /\ PrintT(<<"REJ", tid, l - 1, bad>>)
+       /\ bad' = ""
+       /\ UNCHANGED <<subj, mode, pend, poss, cur, quiet, l, tid>>
+  ELSE TNext
+TSpecAll == TInit /\ [][TNextAll]_<<pvars, l, tid>>
 HW == TLCSet(1, IF TLCGet(1) > l THEN TLCGet(1) ELSE l)
 Accepted == PrintT(<<"HIGHWATER", TLCGet(1), Len(Log)>>)
 ASSUME TLCSet(1, 0)
